@@ -77,6 +77,22 @@ pub fn corpus(thorough: bool) -> Vec<Program> {
             )],
         ))]));
     }
+    // a program the compiler rejects (a bare name that only two qualified imports declare):
+    // the verdict, too, is the same in every process
+    out.push(Program {
+        modules: vec![
+            Module {
+                name: "main.oal".into(),
+                stmts: vec![
+                    Stmt::Use("users.oal".into(), Some("users".into())),
+                    Stmt::Use("orders.oal".into(), Some("orders".into())),
+                    Stmt::Res(rel(uri_lit(&["items"]), vec![xfer(Method::Get, content(var("item")))])),
+                ],
+            },
+            Module { name: "users.oal".into(), stmts: vec![let_("item", obj(vec![prop("login", E::Prim(Prim::Str))]))] },
+            Module { name: "orders.oal".into(), stmts: vec![let_("item", obj(vec![prop("sku", E::Prim(Prim::Str))]))] },
+        ],
+    });
     // a program built for this property: >= 3 entries in every collection
     let ex = "examples: {e3: u3, e1: u1, e2: u2}, tags: [c, a, b]";
     out.push(Program {
